@@ -402,6 +402,9 @@ func (r *Real) Observe(commits bool) (*StepObs, error) {
 			}
 			bo.Objs = append(bo.Objs, oo)
 		}
+		for _, o := range bo.Objs {
+			bo.Lister = append(bo.Lister, o.ID)
+		}
 		sort.Slice(bo.Objs, func(i, j int) bool { return bo.Objs[i].ID < bo.Objs[j].ID })
 		scan, err := r.scan(BranchName(b))
 		if err != nil {
